@@ -23,7 +23,9 @@ CFG = dict(
               "reflected routes: ORIGINATOR_ID (= source router-id if absent, else kept) and cluster-id prepended to CLUSTER_LIST; "
               "non-reflected routes gain neither",
               "confed-eBGP: member AS prepended in an AS_CONFED_SEQUENCE, LOCAL_PREF kept",
-              "LLGR-stale source => LLGR_STALE community (also after a fresh->stale transition of an already advertised route)",
+              "LLGR-stale source => LLGR_STALE community (also after a fresh->stale transition of an already advertised route), "
+              "whatever an export policy (community add / replace / remove / replace-with-nothing, ext- and large-community, "
+              "as-prepend, local-pref) did to the other communities; the per-role rewrite happens on top of the policy result",
               "unknown optional transitive => forwarded with Partial; unknown optional non-transitive => dropped",
               "export-policy next-hop action wins over the per-role default",
               "attributes the statement does not mention travel unchanged; no attribute twice; nothing appears from nowhere",
@@ -41,6 +43,11 @@ CFG = dict(
                  "next hop towards iBGP of locally-originated / next-hop-less routes, and towards eBGP of a locally injected "
                  "route with an explicit next hop (GoBGP-compatible third-party next hop): not judged",
                  "LLGR-stale routes towards peers without LLGR capability: not judged (statement silent)",
+                 "a route that ARRIVED carrying LLGR_STALE from a source that is not itself LLGR-stale, under an export policy "
+                 "that replaces / removes communities: whether the tag must survive (RFC 9494 s4.3 'MUST NOT be removed') is not "
+                 "fixed by the statement's 'LLGR-stale routes' -- counted (open:received-llgr-stale-tag-*), not judged",
+                 "NO_LLGR routes are deleted when their source goes LLGR-stale (drop_no_llgr), so an LLGR-stale route carrying "
+                 "NO_LLGR is never generated",
                  "PeerExportContext.link_addr = Some is read as 'the peer shares the link' (RFC 2545 s.3 condition)",
                  "link-local half under set-next-hop address/self/peer-address policy actions, and link-local next hops "
                  "towards RS-client / confed-eBGP receivers: counted, not judged (the wire part still checks they are "
@@ -58,7 +65,7 @@ CFG = dict(
                          "rewrite:Ebgp": 1800, "rewrite:Ibgp": 1000, "rewrite:IbgpRrClient": 1500,
                          "rewrite:ConfedEbgp": 1800, "rewrite:RsClient": 300,
                          "as-loop:looping": 100, "rx-update:originator-loop": 20, "rx-update:cluster-loop": 20,
-                         "llgr-history:receiver-holds-stale-route": 15, "derived:sessions": 5, "derived:cases": 100,
+                         "llgr-history:receiver-holds-stale-route": 60, "derived:sessions": 5, "derived:cases": 100,
                          # real sinks end to end (GroupedSink::into_messages / PendingTx::drain_messages)
                          "wire:grouped:batches": 100, "wire:pending:batches": 100,
                          "wire:grouped:entries-judged": 1200, "wire:pending:entries-judged": 5000,
@@ -82,7 +89,17 @@ CFG = dict(
                          "wire:session:ipv4": 20, "wire:session:ipv6": 30, "wire:session:ipv4-over-ipv6-nexthop": 20,
                          "wire:receiver-with-link-addr": 25, "wire:handed-link-local-nexthops": 2800,
                          "wire:link-local-nexthop-judged": 1500,
-                         "wire:equal-attrs-equal-global-different-link-local": 340}),
+                         "wire:equal-attrs-equal-global-different-link-local": 340,
+                         # attribute-rewriting export policies x LLGR-stale sources / received LLGR_STALE tags
+                         "clause:rewrite-on-top-of-attribute-policy": 6000,
+                         "clause:llgr-under-community-policy": 1100,
+                         "clause:llgr-under-community-replace-or-remove": 650,
+                         "clause:llgr-source-stale-and-tag-received": 750,
+                         "policy:community-add": 700, "policy:community-replace": 700,
+                         "policy:community-remove-incl-llgr-stale": 700, "policy:community-replace-with-nothing": 700,
+                         "policy:community-remove": 700, "policy:ext-community-add": 700,
+                         "policy:large-community-add": 700, "policy:as-prepend": 700, "policy:local-pref-set": 700,
+                         "llgr-history:cases-with-community-policy": 100}),
     # every shard runs all 360 cells (covering set + random vectors from its own seed)
     quick=[e2("all", "event::verif::c09::run", 1, 120)],
     thorough=[e2("all", "event::verif::c09::run", 8, 200, random_per_cell=4000)],
